@@ -335,6 +335,10 @@ class History:
             if cap >= 4:
                 self.v("C07", "capacity %d rejected with InvalidCapacityError" % cap)
             return "EXC InvalidCapacityError"
+        except Exception as e:            # noqa: nothing else may come out of the constructor
+            self.v("C07", "BPlusTreeMap(capacity=%d) raised %s: %s" % (cap, type(e).__name__, str(e)[:120]))
+            self.viol.append("VIOL * %s %d the constructor raised %s" % (self.hid, self.step, type(e).__name__))
+            return "EXC " + type(e).__name__
         if cap < 4:
             self.v("C07", "capacity %d below 4 accepted" % cap)
         self.maps[name] = t
